@@ -34,7 +34,28 @@ PAGES = [
     ("P three", "{{#invoke:echo|dump|a|k=v}} {{tb}}"),
     ("P four", "plain ''text'' {{nope}} {{#invoke:bad|err}}"),
     ("P five", "{{#invoke:echo|pp|{{ta|q}}}} {{#expr:1+2}}"),
+    # two pages whose module hands a word to a require()d helper through a
+    # global of the invocation's environment: a worker must not answer one
+    # page with what an earlier page of its own order left behind
+    ("P six", "{{#invoke:gmod|f|six}}"),
+    ("P seven", "{{#invoke:gmod|f|seven}} {{#invoke:gmod|f|again}}"),
 ]
+GMOD = """
+local p = {}
+function p.f(frame)
+  word = frame.args[1]
+  return require("Module:ghelp").say()
+end
+return p
+"""
+GHELP = """
+local m = {}
+function m.say()
+  count = (count or 0) + 1
+  return "say:" .. tostring(word) .. ":" .. tostring(count)
+end
+return m
+"""
 
 
 def prepare_db(d, backup_present, phase1_present, stale_wal=False):
@@ -86,6 +107,8 @@ def _prepare(d, backup_present, phase1_present, close):
         ctx.add_page("Template:" + k, 10, v)
     for t, body in PAGES:
         ctx.add_page(t, 0, body)
+    ctx.add_page("Module:gmod", 828, GMOD, model="Scribunto")
+    ctx.add_page("Module:ghelp", 828, GHELP, model="Scribunto")
     if phase1_present:
         ctx.add_page("Module:_sandbox_phase1", 828, "", model="Scribunto")
     ctx.db_conn.commit()
